@@ -115,6 +115,14 @@ func (x *Exec) evalMeasure(fr *Frame, c *Clause, st *State) []Term {
 // lvalueGo resolves "x.f" to the heap key prefix of field f and the object holding it.
 func (env *Env) lvalueGo(e *SExpr) (string, Term, bool) {
 	if call, ok := e.Go.(*ast.CallExpr); ok && len(call.Args) == 1 {
+		if id, ok := call.Fun.(*ast.Ident); ok && id.Name == "mapobj" {
+			v := env.expr(call.Args[0])
+			t, ok := tvTerm(v)
+			if !ok || env.err != nil || v.T == nil || kindOf(v.T) != KMap {
+				return "", Term{}, false
+			}
+			return env.x.eng.mapShape(v.T).key, t, true
+		}
 		if id, ok := call.Fun.(*ast.Ident); ok && (id.Name == "owned" || id.Name == "blen") {
 			t, ok := tvTerm(env.expr(call.Args[0]))
 			if !ok || env.err != nil {
